@@ -51,17 +51,27 @@ KAPPA_CAP = FP_CAP / FP_BASE
 MAX_CW = 10.0            # |centre| / width per axis
 MAX_NODES = 12           # sampling nodes re-evaluated per case
 
-RULE = ("dimension 1/2/3 (sub-checks d1/d2/d3). Per axis: width 0.01..100, |centre|/width <= 10 (0, <=1, <=10 mixed), 3..12 cells, "
-        "resolution = width/(cells+r) with r in [0.05,0.95] or r = 0 (resolution divides the width; the cell count is then "
-        "whatever int((max-min)/res) gives, >= 3). no_boundary_error False/True; function_boundaries none / true enclosure "
-        "of f on the sampled hull / loose (widened by up to 100 |f| per side) / degenerate (min == max, constant f only). "
-        "Wrapped function: recording Python callable, families mlin (sum_m c_m prod_{a in m} t_a), quad (mlin + sum_a q_a t_a^2), "
-        "sin (off + A prod_a sin(k_a (x_a - c_a) + phi_a), 0.5 <= k_a*width_a <= 2 pi), t_a = 2 (x_a - c_a)/width_a, "
-        "amplitudes 1e-3..1e3. Points (3..12 per case): 2-3 in a base cell, 1-2 in an adjacent cell (face, edge or corner "
-        "neighbour), optionally the node/face shared by both, a corner node, points in other cells, points exactly on the "
-        "area limits, and 0-2 points outside (one or more axes 3e-7 .. 1000 widths beyond the area, both sides). The list is "
-        "evaluated in the drawn order on one fresh cache, in a drawn permutation on a second one, point by point on one fresh "
-        "cache each, and on caches with the other function_boundaries modes. "
+RULE = ("dimension 1/2/3 (sub-checks d1/d2/d3). Per axis one of: float (width 0.01..100, |centre|/width <= 10 with 0, <=1, <=10 mixed, "
+        "3..12 cells, resolution = width/(cells+r), r in [0.05,0.95], or r = 0: resolution divides the width and the cell count is "
+        "whatever int((max-min)/res) gives); small (1 or 2 cells, incl. a resolution larger than the width); large (13..200 cells in "
+        "1-D, 13..40 in 2-D; 3-D stays <= 12: a 16-cell 3-D grid already shows 70 u kappa rounding noise in the 64x64 solve, 36 cells "
+        "850 u, and one cache is 28 MB); int (integer limits and width, resolution 0.25..25: Python-int arguments possible). Axis "
+        "kinds are drawn independently, so 2-D/3-D boxes are flat/anisotropic (width ratio up to 1e4, different node counts). "
+        "no_boundary_error False/True; function_boundaries none / true enclosure of f on the sampled hull / loose (widened by up to "
+        "100 |f| per side) / degenerate (min == max, for constant and non-constant f). "
+        "Wrapped function: recording Python callable, families mlin (sum_m c_m prod_{a in m} t_a, cross terms included), quad (mlin + "
+        "sum_a q_a t_a^2), sin (off + A prod_a sin(k_a (x_a - c_a) + phi_a), 0.5 <= k_a*width_a <= 2 pi), const; t_a = 2 (x_a - c_a)/width_a, "
+        "amplitudes 1e-5..1e3. Points (3..12 per case): 2-3 strictly inside a base cell (first/last cell favoured), 1-2 in an adjacent "
+        "cell (face, edge or corner neighbour), optionally the node/face shared by both, a corner node, points in other cells, points "
+        "exactly on the area limits, at 0.0 / -0.0, on the two ends of the node grid (min-1e-7, max+1e-7), and 0-2 points outside (one "
+        "or more axes 3e-7 .. 1000 widths beyond the area, both sides). The list is evaluated in the drawn order on one fresh cache "
+        "(twice), in a drawn permutation on a second one, point by point on one fresh cache each, on caches with two of the other "
+        "function_boundaries modes (same history, so neighbouring cells were built earlier), and on a cache built through other "
+        "accepted input forms: area/resolution elements as int, numpy float64/float32/int64 (only where the value is identical), "
+        "bounds as tuple/list/ndarray (float64, float32, int64), no_boundary_error positional / keyword / int / omitted, all-keyword "
+        "construction, defaults omitted, wrapped function as raysect PythonFunctionND object, point coordinates as int / numpy "
+        "scalars, evaluation through the C-level evaluate() (raysect MultiplyScalar wrapper cache*1.0), the bounds container "
+        "overwritten by the caller after construction. "
         "Non-trivial: >= 2 evaluated points in one cell, points in >= 2 adjacent cells, and the two orders visit the cells "
         "in different sequences.")
 ASSUMPTIONS = [
@@ -73,10 +83,16 @@ ASSUMPTIONS = [
     "inside or as outside; 'outside' points are >= 3e-7 beyond the area; area limits themselves are inside",
     "curvature maxima are taken over the sampled hull (area extended by one resolution per side, where the border nodes are)",
     "sine-product cases with kappa > 1e7 are excluded while the finding C14-raw-monomial-cancellation is open",
+    "input forms: an int / numpy scalar / float32 is only substituted where it holds exactly the same value as the float64, so the "
+    "canonical construction (tuples of Python floats, keywords) must be reproduced bit for bit; space_area and the 2-D/3-D resolution "
+    "are typed `tuple` in the constructors (lists are rejected with TypeError - not generated)",
+    "x * 1.0 is exact, so (cache * 1.0)(p) exposes the bits returned by the C-level evaluate()",
 ]
 TOLERANCES = {
     "history": "bit identity (float.hex) of returned values / identical ValueError outcome: same arithmetic, see module docstring",
     "pass-through": "== f(p) bit for bit, and p is among the recorded call arguments",
+    "forms": "bit identity with the canonical construction at every point (same doubles reach the same arithmetic); the caller's bounds "
+             "container must be unchanged after construction and overwriting it afterwards must not change any value",
     "fp": "node, multilinear, function_boundaries comparisons and the additive term of the approximation bound: "
           "tol = min(1e-13 * kappa, 1e-6) * S;  S = max(bound of |f| on the sampled hull, |data_min|, |data_max|) (normalised samples "
           "(v - data_min)/data_delta are rounded relative to the bounds); kappa = prod_a (1 + K_a X_a)^deg, deg = 1/2/3 for "
@@ -89,10 +105,12 @@ TOLERANCES = {
           "5000 random configurations; with 1e-14 the check stays quiet over 8000 cases, with 1e-15 it fails on 1-D quadratics at 20 u); the cap 1e-6 is the largest tolerance DESIGN allows (1e-9 * kappa_max = 1000).",
     "approx": "|cache(p) - f(p)| <= 1.0 * sum_a h_a^2 max|d2f/da2| + fp. A-priori bound of the scheme: in 1-D the cubic Hermite "
               "interpolant with central-difference slopes differs from the linear interpolant L by h |m_i - s| t(1-t) <= h^2 M/8 and "
-              "|f - L| <= h^2 M/8, i.e. h^2 M/4 (border cells: the outer stencil step res-1e-7 is <= h, same bound); the 2-D/3-D "
+              "|f - L| <= h^2 M/8, i.e. h^2 M/4 (border cells: |m_i - s| <= h' M/2 with the outer stencil step h' = res-1e-7, which is <= h "
+              "for >= 3 cells; for 1- and 2-cell axes h' can exceed h, so h_a := max(h_a, res_a) is used); the 2-D/3-D "
               "interpolant is the tensor product P_x P_y P_z, so the error is <= h_x^2 M_x/4 + L h_y^2 M_y/4 + L^2 h_z^2 M_z/4 with the "
-              "Lebesgue constant L <= 1.27 (1.25 uniform, 1.262 next to a border): constant <= 0.41; the check uses 1.0 (x 2.4; DESIGN "
-              "proposed 2). h_a = (max_a - min_a + 2e-7)/cells_a.",
+              "Lebesgue constant L = 1 + 2 a0 h10 + 2 a1 |h11| <= 1.34 (a = h/(h+h'): 1.25 uniform, 1.262 next to a border with >= 3 cells, "
+              "<= 1.34 for 1-2 cells where h'/h >= 1/2): constant <= 0.45; the check uses 1.0 (x 2.2; DESIGN proposed 2). "
+              "h_a = max((max_a - min_a + 2e-7)/cells_a, res_a).",
 }
 
 _ONLY = set(filter(None, os.environ.get("VERIF_ONLY", "").split(",")))
@@ -698,5 +716,5 @@ def _given(dim, quick, thorough):
 SUBCHECKS = {
     "d1": _given(1, 1200, 40000),
     "d2": _given(2, 1200, 40000),
-    "d3": _given(3, 600, 20000),
+    "d3": _given(3, 500, 16000),
 }
